@@ -9,6 +9,7 @@ ASSUMPTIONS = [
     '(symbolic indices); cell values are concrete and pairwise distinct so that every cell is identifiable; once the solver has fixed the case the serif calls run natively',
     'histories: every pair (quick) / triple (thorough) of operations from a 12-operation alphabet incl. failing operations, starting from every shape',
     'degenerate transposes (0 rows or 0 columns) are only required to be rectangular',
+    '>> is also taken with a dict key / vector name equal to an existing column name (appends, never replaces)',
 ]
 
 NAMES = ['c0', 'c1', 'c2']
